@@ -277,7 +277,12 @@ def rust_str(s):
 TEXTS17 = ["+", "", "fn", "é→", "a\"b", "->", "\\", "let mut", "\n", "😀"]
 
 
-def gen_enum(rng, wellformed, nmax):
+DEFECTS17 = ["struct", "union", "norepr", "repr_u16", "repr_c", "repr_two", "repr_dup", "fields_named", "fields_tuple",
+             "discr", "discr_const", "discr_shift", "discr_paren", "discr_sum", "attr_path", "attr_nv", "attr_bad", "attr_dup", "attr_dup_after",
+             "combo"]
+
+
+def gen_enum(rng, wellformed, nmax, defect=None):
     """-> dict(kind, reprs, variants=[(fields, discr, attrs)])  attrs: ('l', text) | ('p',) | ('n',) | ('b',)"""
     n = rng.randint(1, nmax)
     variants = []
@@ -289,8 +294,8 @@ def gen_enum(rng, wellformed, nmax):
     d = dict(kind="enum", reprs=[["u32"]], variants=variants)
     if wellformed:
         return d
-    defect = rng.choice(["struct", "union", "norepr", "repr_u16", "repr_c", "repr_two", "repr_dup", "fields_named", "fields_tuple",
-                         "discr", "attr_path", "attr_nv", "attr_bad", "attr_dup", "combo"])
+    if defect is None:
+        defect = rng.choice(DEFECTS17)
     v = rng.randrange(n)
     if defect == "struct":
         d["kind"] = "struct"
@@ -312,6 +317,13 @@ def gen_enum(rng, wellformed, nmax):
         variants[v][0] = 2
     elif defect == "discr":
         variants[v][1] = rng.choice([0, 5, 100])
+    elif defect in ("discr_const", "discr_shift", "discr_paren", "discr_sum"):
+        # an explicit discriminant that is not a literal
+        variants[v][1] = 16
+        d["discr_src"] = {v: {"discr_const": "K16", "discr_shift": "1 << 4", "discr_paren": "(16)", "discr_sum": "8 + 8"}[defect]}
+    elif defect == "attr_dup_after":
+        # a second annotation after a well-formed one (duplicate), and a malformed one after a well-formed one
+        variants[v][2] = [("l", "a"), rng.choice([("l", "a"), ("p",), ("b",)])]
     elif defect == "attr_path":
         variants[v][2].append(("p",))
     elif defect == "attr_nv":
@@ -364,7 +376,7 @@ def enum_rust(name, d):
         elif f == 2:
             v += "(u8)"
         if disc is not None:
-            v += f" = {disc}"
+            v += f" = {d.get('discr_src', {}).get(i, disc)}"
         lines.append(v + ",")
     lines.append("}")
     return lines
@@ -372,6 +384,7 @@ def enum_rust(name, d):
 
 PRELUDE17 = """#![allow(dead_code, unused)]
 use cstree::{Syntax, RawSyntaxKind};
+const K16: u32 = 16;
 """
 
 
@@ -419,7 +432,8 @@ def probe_c17(prop, seed, tier):
     n_bad = 90 if tier == "thorough" else 36
     nmax = 300 if tier == "thorough" else 24
     good = [gen_enum(rng, True, nmax if i % 10 == 0 else 8) for i in range(n_good)]
-    bad = [gen_enum(rng, False, 6) for _ in range(n_bad)]
+    # every kind of defect at least once, the rest at random
+    bad = [gen_enum(rng, False, 6, defect=DEFECTS17[i] if i < len(DEFECTS17) else None) for i in range(n_bad)]
     # every rejection reason at least once
     controls = [gen_enum(rng, True, 4) for _ in range(4)]
     out = result_skeleton("probe:c17", len(good) + len(bad) + len(controls))
